@@ -145,6 +145,8 @@ class PolyInterp:
             return self.map1(pabs, self.ev(e.args[0]))
         if name in ('np.sin', 'np.cos') and e.args:
             return self.map1(lambda x: fn(name[3:], x), self.ev(e.args[0]))
+        if name in ('np.sqrt',) and e.args:
+            return self.map1(lambda x: fn('sqrt', x), self.ev(e.args[0]))
         if self.call_hook is not None:
             r = self.call_hook(self, e, name)
             if r is not None:
